@@ -1,0 +1,87 @@
+// +build verif
+
+package rafthttp
+
+import (
+	"io"
+
+	"github.com/youzan/ZanRedisDB/pkg/types"
+	"github.com/youzan/ZanRedisDB/raft/raftpb"
+	"github.com/youzan/ZanRedisDB/stats"
+)
+
+// Exports for the deterministic-simulation harness (/verif/sim/streamsim,
+// property C16). Only compiled with the verif build tag; nothing here changes
+// the behaviour of the package. The constructors below take exactly the
+// arguments stream.go passes (streamWriter.run on attach, streamReader.decodeLoop
+// on every new connection).
+
+// VerifEncoder is the package's unexported encoder interface.
+type VerifEncoder interface {
+	Encode(m *raftpb.Message) error
+}
+
+// VerifDecoder is the package's unexported decoder interface.
+type VerifDecoder interface {
+	Decode() (raftpb.Message, error)
+}
+
+type verifEnc struct{ e encoder }
+
+func (v verifEnc) Encode(m *raftpb.Message) error { return v.e.encode(m) }
+
+type verifDec struct{ d decoder }
+
+func (v verifDec) Decode() (raftpb.Message, error) { return v.d.decode() }
+
+// VerifNewMsgAppV2Encoder is what streamWriter.run creates for a
+// streamTypeMsgAppV2 connection.
+func VerifNewMsgAppV2Encoder(w io.Writer, ps *stats.PeerStats) VerifEncoder {
+	return verifEnc{newMsgAppV2Encoder(w, ps)}
+}
+
+// VerifNewMsgAppV2Decoder is what streamReader.decodeLoop creates for a
+// streamTypeMsgAppV2 connection (local = Transport.ID, remote = peer id).
+func VerifNewMsgAppV2Decoder(r io.Reader, local, remote types.ID) VerifDecoder {
+	return verifDec{newMsgAppV2Decoder(r, local, remote)}
+}
+
+// VerifNewMessageEncoder is what streamWriter.run creates for a
+// streamTypeMessage connection.
+func VerifNewMessageEncoder(w io.Writer) VerifEncoder {
+	return verifEnc{&messageEncoder{w: w}}
+}
+
+// VerifNewMessageDecoder is what streamReader.decodeLoop creates for a
+// streamTypeMessage connection.
+func VerifNewMessageDecoder(r io.Reader) VerifDecoder {
+	return verifDec{newMessageDecoder(r)}
+}
+
+// VerifMsgAppV2BufSize is the size of the codecs' internal buffers.
+const VerifMsgAppV2BufSize = msgAppV2BufSize
+
+// Frame type bytes of the msgappv2 stream.
+const (
+	VerifMsgTypeLinkHeartbeat = msgTypeLinkHeartbeat
+	VerifMsgTypeAppEntries    = msgTypeAppEntries
+	VerifMsgTypeApp           = msgTypeApp
+)
+
+// VerifLinkHeartbeatMessage returns the link-layer heartbeat the stream
+// writer emits.
+func VerifLinkHeartbeatMessage() raftpb.Message { return linkHeartbeatMessage }
+
+// VerifIsLinkHeartbeatMessage is the test the codecs and the reader apply.
+func VerifIsLinkHeartbeatMessage(m *raftpb.Message) bool { return isLinkHeartbeatMessage(m) }
+
+// VerifReadBytesLimit returns the message codec's size limit.
+func VerifReadBytesLimit() uint64 { return readBytesLimit }
+
+// VerifSetReadBytesLimit sets the message codec's size limit (as the
+// package's own msg_codec_test.go does) and returns the previous value.
+func VerifSetReadBytesLimit(n uint64) uint64 {
+	old := readBytesLimit
+	readBytesLimit = n
+	return old
+}
